@@ -155,7 +155,7 @@ class C07(Prop):
     per_case_timeout = 0.25
     rule = ('all sequences of up to 3 (4) lexical fragments from a 37-fragment alphabet (every token, quote, comment markers, dot, non-ASCII letter/digit/symbol), '
             'every third (every) prefix and single-character mutations/deletions of rendered scripts, unbalanced delimiters, unary chains and comment/string '
-            'openers nested 1..65 deep, flat chains of 200..20000 (30000) operands for each of the 15 binary operators and 20000-element lists/strings/comments (inputs over 2000 '
+            'openers nested 1..65 deep, flat chains of 200..8000 (20000) operands for each of the 15 binary operators and 8000 (20000)-element lists/strings/comments (inputs over 2000 '
             'characters are compiled on a 192 KiB thread so that stack growth with the LENGTH of the input shows early; the 3000-operand chains also in a debug build), random Unicode text; the implementation runs in child processes with crash isolation and a per-case time cap: a crash, '
             'abort, stack overflow or hang is a violation; outcome (tree or error kind + payload) compared with the model')
     assumptions = COMMON_ASSUME + ['stack bytes per recursion level and wall-clock time are observed on the real code, not proved']
